@@ -19,6 +19,60 @@ def _lc(db, key):
   return out
 
 
+def _check_not_saturated(res, lc, counter_names, cap_name):
+  import ast
+
+  fn = lc.fi.node
+  parents = {}
+  for n in ast.walk(fn):
+    for c in ast.iter_child_nodes(n):
+      parents[c] = n
+
+  def mentions(node, name):
+    return any(isinstance(x, ast.Name) and x.id == name for x in ast.walk(node))
+
+  def guards(node):
+    """tests of the enclosing ifs (and whiles) up to the function"""
+    out = []
+    while node in parents:
+      par = parents[node]
+      if isinstance(par, (ast.If, ast.While)) and node is not par.test:
+        out.append(par)
+      node = par
+    return out
+
+  incs = [n for n in ast.walk(fn) if isinstance(n, (ast.AugAssign, ast.Assign)) and any(isinstance(t, ast.Name) and t.id in counter_names for t in ([n.target] if isinstance(n, ast.AugAssign) else n.targets)) and not (isinstance(n, ast.Assign) and isinstance(n.value, ast.Call) and not n.value.args == [] and isinstance(n.value.args[0], ast.Constant))]
+  incs = [n for n in incs if any(isinstance(p, (ast.For, ast.While)) for p in _ancestors(parents, n))]
+  res.ob(bool(incs), "compact|counter-increments", Finding("R-CAP.3", f"{lc.name}|counter|no-increment", f"no loop increment of the demand counter {sorted(counter_names)} found", lc.ev.loc))
+  for inc in incs:
+    bad = [g for g in guards(inc) if mentions(g.test, cap_name)]
+    res.ob(
+      not bad,
+      f"compact|increment-unconditional|{inc.lineno - fn.lineno}",
+      Finding("R-CAP.3", f"{lc.name}|counter|saturating-increment", f"the demand counter is only incremented under a test on the capacity `{cap_name}` (line {bad[0].lineno if bad else 0}): it saturates, so `count > {cap_name}` cannot detect the overflow", f"{lc.fi.file}:{inc.lineno}"),
+    )
+    loops = [p for p in _ancestors(parents, inc) if isinstance(p, (ast.For, ast.While))]
+    for lp in loops:
+      for x in ast.walk(lp):
+        if isinstance(x, (ast.Break, ast.Return)) or (isinstance(x, ast.Continue)):
+          gs = [g for g in guards(x) if mentions(g.test, cap_name) and any(g is y for y in ast.walk(lp))]
+          res.ob(
+            not gs,
+            f"compact|loop-exit|{x.lineno - fn.lineno}",
+            Finding("R-CAP.3", f"{lc.name}|counter|capacity-conditioned-exit", f"a loop that increments the demand counter is left (`{type(x).__name__.lower()}`) under a test on the capacity `{cap_name}`: demand beyond the capacity is no longer counted, so the NVMAX overflow bit is not raised when the capacity is reached exactly", f"{lc.fi.file}:{x.lineno}"),
+          )
+      if isinstance(lp, ast.While):
+        res.ob(not mentions(lp.test, cap_name), f"compact|while-cond|{lp.lineno - fn.lineno}", Finding("R-CAP.3", f"{lc.name}|counter|capacity-conditioned-loop", f"the counting loop's condition tests the capacity `{cap_name}`", f"{lc.fi.file}:{lp.lineno}"))
+
+
+def _ancestors(parents, n):
+  out = []
+  while n in parents:
+    n = parents[n]
+    out.append(n)
+  return out
+
+
 def check_compaction(db, res):
   """Sequential DOF compaction: guarded map writes, NVMAX bit on the same counter, ncdof clamped."""
   # (1) sequential compaction: slot writes guarded by count < nvmax, overflow bit from the same count, ncdof clamped
@@ -49,6 +103,11 @@ def check_compaction(db, res):
     ws = [a for a in acc if a.is_write and a.root == "cdof_dof_out"]
     same = any(set(subterms(a.idx[1])) & set(subterms(count_term)) for a in ws)
     res.ob(same, "compact|same-counter", Finding("R-CAP.3", "island._compact_dofs|overflow|different-counter", "the NVMAX detector tests a different counter than the one that indexes the compaction maps", lc.ev.loc))
+    # (1b) the running count is a *demand* counter: it must keep counting past the capacity, otherwise `count > nvmax`
+    # can never hold when the demand stops exactly at (or is cut off at) the capacity. Syntactic, on the kernel's AST:
+    # no increment of the counter and no exit of a loop that contains one is conditioned on the capacity.
+    names = {s.args[1] for s in subterms(count_term) if s.op == "carried"}
+    _check_not_saturated(res, lc, names, "nvmax_in")
   nc = [a for a in acc if a.is_write and a.root == "ncdof_out"]
   clamp_ok = any(a.value is nv for a in nc) and len(nc) >= 2
   res.ob(clamp_ok, "compact|ncdof-clamp", Finding("R-CAP.4", "island._compact_dofs|ncdof|clamp", "ncdof is not clamped to nvmax on overflow (readers use it as a loop bound)", lc.ev.loc))
